@@ -1,11 +1,13 @@
 #!/bin/sh
-# usage: tools/run_all.sh [tier] [seed]   -- runs every check, prints one line per property
+# usage: tools/run_all.sh [tier] [seed]   -- runs every check, prints one line per property (rc = exit code of the check)
 TIER="${1:-quick}"; SEED="${2:-0}"
-cd /verif
+cd "$(dirname "$0")/.." || exit 2
+T=$(mktemp)
 for i in 01 02 03 04 05 06 07 08 09 10 11 12 13 14 15 16 17 18 19 20; do
   s=$(date +%s)
-  out=$(VERIF_SEED=$SEED ./check C$i $TIER 2>/dev/null | tail -1)
+  VERIF_SEED=$SEED ./check C$i $TIER > "$T" 2>/dev/null
   rc=$?
   e=$(date +%s)
-  echo "C$i rc=$rc $((e-s))s :: $out" | cut -c1-200
+  echo "C$i rc=$rc $((e-s))s :: $(tail -1 "$T")" | cut -c1-200
 done
+rm -f "$T"
